@@ -1,5 +1,6 @@
 import Driver.Common
 import PanqecVerif.Model.UnionFind
+import PanqecVerif.Model.UnionFindWF
 open Panqec
 
 /-! ops for `Model/UnionFind.lean` (C05: internals of the union-find decoder).
@@ -7,6 +8,8 @@ open Panqec
 `uf.decode H sy sched`  → `X:<bits>` | `TIMEOUT` | `ERR shape`, plus ` SCHED-MISMATCH` / ` BAD`
 `uf.trace  H sy sched`  → every growth step, the roots, every peeling tree and round, the result
                           (same text as `harness/uf_trace.py` builds from the running implementation)
+
+`uf.class  H`           → `closed` | `graphlike` | `none` (the predicates `closedGraph`, `graphLike`)
 
 `sched`: the recorded set iteration orders, `;`-separated lists of `,`-separated integers
 (`e` = empty list, `-` = no schedule). -/
@@ -87,6 +90,10 @@ def handleUnionFind : List String → Option String
     let run := UF.decodeWith (parseStack h) (parseVec sy) (uf_parseSched sc)
     some (uf_outcome run.outcome ++ uf_flags run.schedOk run.bad)
   | ["uf.trace", h, sy, sc] => some (uf_trace (parseStack h) (parseVec sy) (uf_parseSched sc))
+  | ["uf.class", h] =>
+    -- which hypothesis of the theorems in `Properties/C05UnionFind.lean` the matrix satisfies
+    let H := parseStack h
+    some (if UF.closedGraph H then "closed" else if UF.graphLike H then "graphlike" else "none")
   | _ => none
 
 end Drv
